@@ -107,10 +107,15 @@ def gen_value(r, depth=0):
 
 # ---------------------------------------------------------------------------- implementation side
 class Seams:
-    """Monkey-patched network seams (no source hooks): aiohappyeyeballs.start_connection and loop.create_connection."""
+    """Monkey-patched network seams (no source hooks): aiohappyeyeballs.start_connection and loop.create_connection.
+    A scripted network: only the addresses in `reachable` accept; each accepted connection gets its own accessory
+    instance (fresh pair-verify / counters) tagged with the peer address; all requests go to one `captured` list."""
 
-    def __init__(self, loop, accessory):
-        self.loop, self.accessory, self.transports = loop, accessory, []
+    def __init__(self, loop, acc_doc):
+        self.loop, self.acc_doc = loop, acc_doc
+        self.transports, self.accessories, self.captured = [], [], []
+        self.reachable = set()
+        self.attempts = []
 
     def install(self):
         import aiohappyeyeballs
@@ -128,14 +133,30 @@ class Seams:
             self._C.start_connection = self._orig_c
 
     async def start_connection(self, addr_infos, **kw):
-        return FakeSock(addr_infos[0][4])
+        for ai in addr_infos:
+            self.attempts.append(ai[4][0])
+            if ai[4][0] in self.reachable:
+                return FakeSock(ai[4])
+        raise ConnectionRefusedError(111, "scripted network: no reachable address")
 
     async def create_connection(self, factory, sock=None, **kw):
         proto = factory()
-        tr = MemTransport(self.loop, self.accessory, proto)
+        acc = Accessory(PAIRING_ID, keys()["acc"], self.acc_doc, host=sock.getpeername()[0],
+                        conn=len(self.transports), sink=self.captured)
+        tr = MemTransport(self.loop, acc, proto)
+        self.accessories.append(acc)
         self.transports.append(tr)
         proto.connection_made(tr)
         return tr, proto
+
+
+class FakeDescription:
+    """What IpPairing/SecureHomeKitConnection read from the zeroconf description."""
+
+    def __init__(self, addresses, port):
+        self.addresses, self.port, self.name = list(addresses), port, "sim"
+        self.address = self.addresses[0]
+        self.config_num, self.state_num = 1, 1
 
 
 class StubCache:
@@ -258,61 +279,93 @@ async def do_op(obj, op):
     raise ValueError(k)
 
 
+def host_kind(h):
+    return "v4" if ":" not in h else ("v6s" if "%" in h else "v6")
+
+
 async def run_scenario(sc, acc_doc):
-    """Returns a list of op records: dict(op, asked, outcome, requests=[Captured], calls=[(kind, nchunks)])."""
+    """One session on ONE HomeKitConnection / IpPairing object.  sc = dict(mode, hosts, port, phases=[...]); a phase =
+    dict(via, reach, ops[, new_hosts]): via 'initial' (first connect), 'drop' (the peer closes the TCP connection and the
+    library's own connector reconnects), 'close-reopen' (close() then connect again), 'zeroconf-change' (the advertised
+    address list changes, then the peer closes).  `reach` is the only address that accepts connections in that phase.
+    Returns op records: dict(op, asked, outcome, requests=[Captured], host, via, phase)."""
     import aiohomekit.controller.ip.connection as C
     from aiohomekit.controller.ip.pairing import IpPairing
     loop = asyncio.get_running_loop()
-    accessory = Accessory(PAIRING_ID, keys()["acc"], acc_doc)
-    seams = Seams(loop, accessory)
+    seams = Seams(loop, acc_doc)
     seams.install()
     records = []
     try:
         if sc["mode"] == "plain":
-            conn = C.HomeKitConnection(None, [sc["host"]], sc["port"])
-            obj, closer = conn, conn.close
+            conn = C.HomeKitConnection(None, list(sc["hosts"]), sc["port"])
+            obj, closer, conn_obj = conn, conn.close, conn
             connect = conn.ensure_connection
         else:
             pd = dict(AccessoryPairingID=PAIRING_ID, AccessoryLTPK=keys()["acc_pub"], iOSPairingId=IOS_ID,
                       iOSDeviceLTSK=keys()["ios_sk"], iOSDeviceLTPK=keys()["ios_pub"],
-                      AccessoryIP=sc["host"], AccessoryPort=sc["port"], Connection="IP")
+                      AccessoryIP=sc["hosts"][0], AccessoryIPs=list(sc["hosts"]), AccessoryPort=sc["port"], Connection="IP")
             pairing = IpPairing(StubController(), pd)
-            obj, closer = pairing, pairing.close
+            obj, closer, conn_obj = pairing, pairing.close, pairing.connection
             connect = pairing._ensure_connected
         n0 = 0
-        try:
-            await asyncio.wait_for(connect(), 8)
-            outcome = "ok"
-        except Exception as e:  # noqa
-            outcome = "exc:" + type(e).__name__
-        tr = seams.transports[-1] if seams.transports else None
-        caps = accessory.captured[n0:]
-        n0 = len(accessory.captured)
-        if sc["mode"] == "secure":
-            records.append(dict(op=("pair_verify",), asked=None, outcome=outcome, requests=caps))
-        elif outcome != "ok":
-            records.append(dict(op=("connect",), asked=[], outcome=outcome, requests=caps))
-        conn_obj = obj if sc["mode"] == "plain" else obj.connection
-        for op in sc["ops"]:
-            target_obj = obj
-            if sc["mode"] == "secure" and op[0] in ("get", "put", "post", "put_json", "post_json", "post_tlv", "request"):
-                target_obj = conn_obj
+        peers = []
+        for pi, ph in enumerate(sc["phases"]):
+            via = ph["via"]
+            seams.reachable = {ph["reach"]}
+            ntr = len(seams.transports)
+            if via == "zeroconf-change" and sc["mode"] == "secure":
+                obj.description = FakeDescription(ph["new_hosts"], sc["port"])
+            if via in ("drop", "zeroconf-change"):
+                if seams.transports:
+                    seams.transports[-1].peer_close()
+                await asyncio.sleep(0)
+                await asyncio.sleep(0)
+            elif via == "close-reopen":
+                try:
+                    await asyncio.wait_for(closer(), 5)
+                except Exception:  # noqa
+                    pass
+                await asyncio.sleep(0)
             try:
-                await asyncio.wait_for(do_op(target_obj, op), 8)
+                await asyncio.wait_for(connect(), 8)
                 outcome = "ok"
+                if len(seams.transports) == ntr and via != "initial":
+                    outcome = "no-reconnect"
             except Exception as e:  # noqa
                 outcome = "exc:" + type(e).__name__
-            caps = accessory.captured[n0:]
-            n0 = len(accessory.captured)
-            records.append(dict(op=op, asked=asked_of(op), outcome=outcome, requests=caps))
-        leftover = bytes(accessory.plain_buf) or bytes(accessory.cipher_buf)
+            caps = seams.captured[n0:]
+            n0 = len(seams.captured)
+            peers.append(ph["reach"])
+            base = dict(host=ph["reach"], via=via, phase=pi)
+            if sc["mode"] == "secure" or outcome != "ok":
+                records.append(dict(op=("pair_verify",) if sc["mode"] == "secure" else ("connect",),
+                                    asked=None if sc["mode"] == "secure" else [], outcome=outcome, requests=caps, **base))
+            for op in ph["ops"]:
+                target_obj = obj
+                if sc["mode"] == "secure" and op[0] in ("get", "put", "post", "put_json", "post_json", "post_tlv", "request"):
+                    target_obj = conn_obj
+                try:
+                    await asyncio.wait_for(do_op(target_obj, op), 8)
+                    outcome = "ok"
+                except Exception as e:  # noqa
+                    outcome = "exc:" + type(e).__name__
+                caps = seams.captured[n0:]
+                n0 = len(seams.captured)
+                records.append(dict(op=op, asked=asked_of(op), outcome=outcome, requests=caps, **base))
+        # read the attribute only now: reading it earlier could itself change what a caching implementation sends
+        host_header = getattr(conn_obj, "host_header", None)
+        leftover = b""
+        for acc in seams.accessories[-1:]:
+            leftover = bytes(acc.plain_buf) or bytes(acc.cipher_buf)
         try:
             await asyncio.wait_for(closer(), 5)
         except Exception:  # noqa
             pass
         calls = [(k, len(ch), sum(len(x) for x in ch)) for tr_ in seams.transports for k, ch in tr_.calls]
-        return dict(records=records, calls=calls, leftover=leftover, errors=list(accessory.errors),
-                    host_header=getattr(conn_obj, "host_header", None))
+        return dict(records=records, calls=calls, leftover=leftover,
+                    errors=[e for acc in seams.accessories for e in acc.errors],
+                    host_header=host_header, last_peer=(peers[-1] if peers else None), peers=peers,
+                    connections=len(seams.transports))
     finally:
         seams.uninstall()
 
@@ -394,6 +447,64 @@ def gen_ascii(r):
     return "".join(r.choice("abcdef0123456789-:") for _ in range(r.choice([1, 8, 36, 36, 300])))
 
 
+def single(mode, host, port, ops):
+    return dict(mode=mode, hosts=[host], port=port, phases=[dict(via="initial", reach=host, ops=ops)])
+
+
+def short_ops(r, mode, first):
+    """A few requests per connection of a session sequence (at least one, so a cached header would be populated)."""
+    if mode == "plain":
+        return [("get", "/accessories"), ("put_json", "/characteristics", {"characteristics": [{"aid": 1, "iid": 9, "ev": True}]}),
+                ("post_tlv", "/pairings", [(6, b"\x01"), (0, b"\x05")])][: r.choice([1, 2, 3])] + plain_ops(r, r.choice([0, 1, 2]))
+    ops = [("list_accessories",)] if first else []
+    ops += [("get_characteristics", rand_ids(r, r.choice([1, 3])), list),
+            ("put_characteristics", [writable(r) + (gen_value(r),)]),
+            (r.choice(["subscribe", "unsubscribe"]), sorted(rand_ids(r, 3)))][: r.choice([1, 2, 3])]
+    return ops + secure_ops(r, r.choice([0, 1, 2]))[1:]
+
+
+def gen_sessions(tier, r):
+    """Session sequences on one connection object: connect to A, requests, lose/close/re-advertise, reconnect to B of
+    another family or spelling, requests again (and back)."""
+    by_kind = {}
+    for hk, h in HOSTS:
+        by_kind.setdefault(hk, []).append(h)
+    scs = []
+    kinds = ["v4", "v6", "v6s"]
+    # grid: every ordered pair of address kinds (incl. same kind, different address) x mode x transition
+    for ka, kb in itertools.product(kinds, kinds):
+        a = by_kind[ka][0]
+        b = by_kind[kb][1] if ka == kb else by_kind[kb][0]
+        for mode in ("plain", "secure"):
+            for via in ("drop", "close-reopen", "zeroconf-change"):
+                if via == "zeroconf-change" and mode == "plain":
+                    continue       # a bare HomeKitConnection has no zeroconf description
+                hosts = [a, b] if via != "zeroconf-change" else [a]
+                ph = [dict(via="initial", reach=a, ops=short_ops(r, mode, True)),
+                      dict(via=via, reach=b, ops=short_ops(r, mode, False))]
+                if via == "zeroconf-change":
+                    ph[1]["new_hosts"] = [b, by_kind[kb][-1]]
+                else:
+                    ph.append(dict(via="drop", reach=a, ops=short_ops(r, mode, False)))     # and back
+                scs.append(dict(mode=mode, hosts=hosts, port=r.choice([80, 5001, 51826]), phases=ph))
+    # random longer histories
+    for i in range(40 if tier == "quick" else 800):
+        mode = "secure" if i % 2 else "plain"
+        hosts = r.sample([h for _, h in HOSTS], r.choice([2, 3, 4]))
+        cur = list(hosts)
+        ph = [dict(via="initial", reach=r.choice(cur), ops=short_ops(r, mode, True))]
+        for _ in range(r.choice([1, 2, 3, 5])):
+            via = r.choice(["drop", "drop", "drop", "close-reopen"] + (["zeroconf-change"] if mode == "secure" else []))
+            d = dict(via=via, ops=short_ops(r, mode, False))
+            if via == "zeroconf-change":
+                cur = r.sample([h for _, h in HOSTS], r.choice([1, 2, 3]))
+                d["new_hosts"] = list(cur)
+            d["reach"] = r.choice(cur)
+            ph.append(d)
+        scs.append(dict(mode=mode, hosts=hosts, port=r.choice([80, 5001, 51826, 65535]), phases=ph))
+    return scs
+
+
 def gen_scenarios(tier, r):
     scs = []
     # grid: every host x mode with a fixed op list touching every API once
@@ -405,19 +516,19 @@ def gen_scenarios(tier, r):
                    ("request", "get", "/accessories", None, b""), ("request", "put", "/c", CT_JSON, b"[]")]
         else:
             ops = [("list_accessories",), ("get_characteristics", [(1, 9), (1, 10), (2, 3)], list),
-                   ("put_characteristics", [(1, 9, "é \"q\"\n\x01"), (2, 10, {"k": [None, True, -7]})]),
+                   ("put_characteristics", [(1, 9, "\u00e9 \"q\"\n\x01"), (2, 10, {"k": [None, True, -7]})]),
                    ("subscribe", [(1, 9), (1, 10), (2, 3), (1, 11)]), ("unsubscribe", [(1, 9), (2, 3)]),
                    ("identify",), ("list_pairings",), ("add_pairing", "id-1", "00" * 32, "Admin"),
                    ("remove_pairing", "id-1"), ("image", 1, 640, 480)]
-        scs.append(dict(mode=mode, host=host, hostkind=hk, port=r.choice([80, 5001, 51826]), ops=ops))
-    n = 260 if tier == "quick" else 5000
+        scs.append(single(mode, host, r.choice([80, 5001, 51826]), ops))
+    scs += gen_sessions(tier, r)
+    n = 220 if tier == "quick" else 4500
     for i in range(n):
         hk, host = r.choice(HOSTS)
         mode = "secure" if i % 3 else "plain"
         ops = secure_ops(r, r.choice([6, 12, 20])) if mode == "secure" else plain_ops(r, r.choice([6, 12, 20]))
-        scs.append(dict(mode=mode, host=host, hostkind=hk, port=r.choice([80, 5001, 51826, 65535]), ops=ops))
+        scs.append(single(mode, host, r.choice([80, 5001, 51826, 65535]), ops))
     return scs
-
 
 
 # ---------------------------------------------------------------------------- replay encoding of ops
@@ -473,6 +584,14 @@ def extract(cap):
         except Exception:  # noqa
             pass
     return d
+
+
+def sent_host(cap) -> str:
+    """The address named by the Host header actually sent (brackets stripped), leniently."""
+    hv = dict(cap.info["headers"]).get(b"host", b"").strip()
+    if hv.startswith(b"[") and b"]" in hv:
+        hv = hv[1:hv.index(b"]")]
+    return hv.decode("latin1")
 
 
 def lenient_ids(target: bytes):
@@ -636,12 +755,8 @@ def run(ctx):
     # ================================================================ req stream
     r = rng(seed, "c09req")
     scs = gen_scenarios(tier, r) if rp is None else []
-    if rp and "req" in streams and "op_json" in rp:
-        op = dec(rp["op_json"])
-        ops = ([] if op[0] in ("pair_verify", "connect") else [op])
-        if rp["mode"] == "secure" and ops and ops[0][0] != "list_accessories":
-            ops = [("list_accessories",)] + ops
-        scs = [dict(mode=rp["mode"], host=rp["host"], hostkind=rp.get("hostkind", "?"), port=rp["port"], ops=ops)]
+    if rp and "req" in streams and "scenario_json" in rp:
+        scs = [dec(rp["scenario_json"])]          # the whole session is replayed on one connection object
     acc_doc = accessories_doc(AIDS, IIDS)
 
     async def all_scenarios():
@@ -658,16 +773,17 @@ def run(ctx):
         return len(lines) - 1
 
     for si, (sc, res) in enumerate(zip(scs, results)):
-        hosth = hx(sc["host"].encode())
         for ri, rec in enumerate(res["records"]):
             op = rec["op"]
+            hosth = hx(rec["host"].encode())      # the address this connection was actually made to
+            rec["peers"] = res["peers"][:rec["phase"] + 1]
             exs = [extract(c) for c in rec["requests"]]
             rec["ex"] = exs
             for qi, (cap, ex) in enumerate(zip(rec["requests"], exs)):
                 if ex["kind"] == "json" and ex["value_ok"]:
-                    li = q(" ".join(["reqj", ex["method"], hx(ex["target"]), hosth] + jtoks(ex["value"])))
+                    li = q(" ".join(["reqj", ex["method"], hx(ex["target"]), hx((cap.host or rec["host"]).encode())] + jtoks(ex["value"])))
                 elif ex["method"] in ("GET", "PUT", "POST"):
-                    li = q(" ".join(["req", ex["method"], hx(ex["target"]), hosth, ex["kind"], hx(ex["body"])]))
+                    li = q(" ".join(["req", ex["method"], hx(ex["target"]), hx((cap.host or rec["host"]).encode()), ex["kind"], hx(ex["body"])]))
                 else:
                     li = None
                 jobs.append((si, ri, qi, "render", li, None))
@@ -703,10 +819,14 @@ def run(ctx):
     answers = drv.batch(lines)
 
     def replay(sc, rec, qi=None, **more):
-        d = dict(stream="req", mode=sc["mode"], host=sc["host"], port=sc["port"],
-                 op=repr(rec["op"])[:600], op_json=enc(rec["op"]), hostkind=sc["hostkind"], outcome=rec["outcome"],
+        d = dict(stream="req", mode=sc["mode"], host=rec["host"], port=sc["port"], advertised_hosts=sc["hosts"],
+                 session=[dict(phase=i, via=ph["via"], connected_to=ph["reach"], ops=len(ph["ops"]),
+                               **({"new_hosts": ph["new_hosts"]} if "new_hosts" in ph else {}))
+                          for i, ph in enumerate(sc["phases"])][:rec["phase"] + 1],
+                 phase=rec["phase"], via=rec["via"],
+                 op=repr(rec["op"])[:600], outcome=rec["outcome"], scenario_json=enc(sc),
                  requests=[dict(bytes_hex=hx(c.raw), text=c.raw[:400].decode("latin1"), transport_calls=len(c.calls),
-                                encrypted=c.secure) for c in rec["requests"]][:6])
+                                encrypted=c.secure, written_to=c.host, connection=c.conn) for c in rec["requests"]][:6])
         if qi is not None and qi < len(rec["requests"]):
             d["request_index"] = qi
         d.update(more)
@@ -717,10 +837,10 @@ def run(ctx):
     for si, (sc, res) in enumerate(zip(scs, results)):
         if res["errors"]:
             add("harness:" + res["errors"][0], "accessory could not decode the encrypted frames: " + res["errors"][0], False,
-                stream="req", host=sc["host"])
+                stream="req", hosts=sc["hosts"], scenario_json=enc(sc))
         if res["leftover"]:
             add("incomplete-request:" + sc["mode"], "bytes were written that never formed a complete request", True,
-                stream="req", host=sc["host"], mode=sc["mode"], leftover_hex=hx(res["leftover"][:300]))
+                stream="req", hosts=sc["hosts"], mode=sc["mode"], leftover_hex=hx(res["leftover"][:300]), scenario_json=enc(sc))
         for rec in res["records"]:
             op, api = rec["op"], rec["op"][0]
             exs = rec["ex"]
@@ -728,9 +848,10 @@ def run(ctx):
                 add(f"op-failed:{api}:{rec['outcome']}", f"{api} on the in-memory accessory ended with {rec['outcome']} "
                     f"(expected a normal return)", False, **replay(sc, rec))
             if api == "pair_verify":
-                if rec["outcome"] == "ok" and len(exs) != 2:
+                # two pair-verify posts, then whatever connection_made(True) re-subscribes
+                if rec["outcome"] == "ok" and len(exs) < 2:
                     add("wrong-request-count:pair_verify", f"pair-verify used {len(exs)} requests, expected 2", False, **replay(sc, rec))
-                asked_why = [pv_shape(i, ex) for i, ex in enumerate(exs)]
+                asked_why = [pv_shape(i, ex) if i < 2 else None for i, ex in enumerate(exs)]
             else:
                 asked = rec["asked"]
                 if len(exs) != len(asked):
@@ -741,22 +862,36 @@ def run(ctx):
                     asked_why = [same_asked(a, ex) for a, ex in zip(asked, exs)]
             for qi, (cap, ex) in enumerate(zip(rec["requests"], exs)):
                 n_req += 1
-                why = oracle(cap.raw, sc["host"], api not in RAW_BODY_APIS)
+                peer = cap.host or rec["host"]
+                why = oracle(cap.raw, peer, api not in RAW_BODY_APIS and not (api == "pair_verify" and qi < 2))
+                if why == "host-value":
+                    sent = sent_host(cap)
+                    if sent != peer and sent in rec["peers"][:-1]:
+                        why = "stale-host"
                 rec.setdefault("oracle", []).append(why)
+                if why == "stale-host":
+                    add(f"host-header:stale-after-reconnect:{rec['via']}",
+                        f"{api}: after '{rec['via']}' the connection is to {peer} but the request carries the Host header of an "
+                        f"earlier peer ({sent_host(cap)}): the Host header must name the connected address", True,
+                        **replay(sc, rec, qi, reason=why, sent_host=sent_host(cap), connected_host=peer))
+                    why_key = None
+                else:
+                    why_key = why
                 if len(cap.calls) != 1:
                     add(f"split-write:{api}", f"{api}: one request was handed to the transport in {len(cap.calls)} calls "
                         f"(must be exactly one write/writelines)", True, **replay(sc, rec, qi))
-                if why:
+                if why_key:
                     add(f"noncanonical:{why}:{api}", f"{api}: request is not in the canonical form (strict grammar: {why})",
                         True, **replay(sc, rec, qi, reason=why))
                 if asked_why[qi]:
                     add(f"wrong-request:{asked_why[qi]}:{api}", f"{api}: the request on the wire is not what the call asked for "
                         f"({asked_why[qi]})", True, **replay(sc, rec, qi, reason=asked_why[qi]))
                 body = ex["body"]
-                cov.case("q" + sc["host"] + hx(cap.raw), bool(body) or b"?" in ex["target"],
-                         sample=(dict(stream="req", mode=sc["mode"], host=sc["host"], api=api,
+                cov.case("q" + peer + hx(cap.raw), bool(body) or b"?" in ex["target"],
+                         sample=(dict(stream="req", mode=sc["mode"], host=peer, via=rec["via"], connection=cap.conn, api=api,
                                       request=cap.raw[:300].decode("latin1")) if n_req % 401 == 1 else None),
-                         req_api=api, req_mode=sc["mode"], req_host=sc["hostkind"], req_method=ex["method"],
+                         req_api=api, req_mode=sc["mode"], req_host=host_kind(peer), req_method=ex["method"],
+                         req_reached_via=rec["via"], req_connection_ordinal=min(cap.conn, 5),
                          req_body_kind=ex["kind"],
                          req_body_len=(len(body) if len(body) < 4 else 1 << (len(body).bit_length())),
                          req_calls_per_request=len(cap.calls),
@@ -801,10 +936,14 @@ def run(ctx):
                     broken="correspondence api_update_subscriptions <-> _update_subscriptions")
     # host header as built by _connect_once, for every host of the grid
     for sc, res in zip(scs, results):
-        want = "Host: [%s]" % sc["host"] if ":" in sc["host"] else "Host: " + sc["host"]
+        lp = res["last_peer"]
+        if lp is None:
+            continue
+        want = "Host: [%s]" % lp if ":" in lp else "Host: " + lp
         if res["host_header"] != want:
-            add("noncanonical:host-header-attr:" + sc["hostkind"], f"connection.host_header is {res['host_header']!r}, "
-                f"canonical is {want!r}", True, stream="req", host=sc["host"], port=sc["port"], impl=res["host_header"], expected=want)
+            add("noncanonical:host-header-attr:" + host_kind(lp), f"connection.host_header is {res['host_header']!r} while connected "
+                f"to {lp}, canonical is {want!r}", True, stream="req", host=lp, port=sc["port"], impl=res["host_header"],
+                expected=want, scenario_json=enc(sc))
 
     # ================================================================ json stream
     r = rng(seed, "c09json")
@@ -936,7 +1075,7 @@ def run(ctx):
             for rec in res["records"]:
                 for cap, ex in zip(rec["requests"], rec["ex"]):
                     if ex["method"] in ("GET", "PUT", "POST") and len(cap.raw) < 700 and not rec["oracle"][0]:
-                        picks.append((sc["host"], ex, cap.raw))
+                        picks.append((cap.host or rec["host"], ex, cap.raw))
                     break
             if len(picks) >= 24:
                 break
@@ -966,6 +1105,14 @@ def run(ctx):
                                     "every API entry point once; every 1-character string U+0000..U+007F and every 2-character string "
                                     "over a 12-character escaping alphabet through hkjson.dump_bytes")
     cov.extra["scenarios"] = len(scs)
+    cov.extra["session_sequences"] = sum(1 for sc in scs if len(sc["phases"]) > 1)
+    cov.extra["connections_made"] = sum(res["connections"] for res in results)
+    import collections as _c
+    tr_hist = _c.Counter()
+    for sc in scs:
+        for a, b in zip(sc["phases"], sc["phases"][1:]):
+            tr_hist["%s:%s->%s" % (b["via"], host_kind(a["reach"]), host_kind(b["reach"]))] += 1
+    cov.extra["session_transitions"] = dict(tr_hist)
     cov.extra["requests_recorded"] = n_req
     cov.extra["transport_calls_recorded"] = sum(len(res["calls"]) for res in results)
     cov.extra["domain_exclusions"] = ("JSON floats, non-string keys and lone surrogates are not modelled (not generated); integers outside "
